@@ -1,4 +1,4 @@
--- Root of the `OdfModel` library: models, helper lemmas and property theorems.
+-- Root of the `OdfModel` library.  The models live in OdfModel/*.lean, the reference specifications in
+-- OdfModel/Spec/, translator output in OdfModel/Generated/, and the property theorems in OdfModel/Props/Cxx.lean
+-- (each built by its own check and by setup.sh).
 import OdfModel.Basic
-import OdfModel.Teletype
-import OdfModel.Props.C17
